@@ -288,6 +288,11 @@ def seq_contains(t, x):
 def split_op(*a, **k): pass
 
 
+def sjoin(xs):
+    """concatenation of a sequence of strings (''.join)"""
+    return ''.join(xs)
+
+
 Raiser = Shape('raiser')
 
 
@@ -301,3 +306,6 @@ def ite(c, a, b):
 
 def typeis(v, c):
     return type(v) is c
+
+
+def loopvar_in(*a, **k): pass
